@@ -244,7 +244,12 @@ def gen_existing(rng, i):
     if rng.random() < 0.3:
         doc["my_custom_key"] = {"anything": [1, 2, 3], "note": "kept"}
     style = rng.choice(["block", "block", "flow", "comments", "crlf", "no-final-newline", "doc-markers", "banner-lookalike"])
+    if i % 7 == 3:
+        # the other documented configuration format: an existing .thailint.json, named with --output
+        style = "json"
     text = yaml.safe_dump(doc, sort_keys=False, default_flow_style=(style == "flow")) if doc else "{}\n"
+    if style == "json":
+        text = json.dumps(doc, indent=2) + "\n"
     if style == "comments":
         text = "# my project configuration\n# GLOBAL SETTINGS are below (not really)\n" + text.replace("\n", "  # user note\n", 1) + "# trailing comment\n"
     elif style == "banner-lookalike":
@@ -255,7 +260,7 @@ def gen_existing(rng, i):
         text = text.rstrip("\n")
     elif style == "doc-markers":
         text = "---\n" + text + "...\n"
-    return {"id": "mg%d" % i, "text": text, "doc": doc, "style": style, "presets": [rng.choice(PRESETS + [None]), rng.choice(PRESETS + [None]), rng.choice(PRESETS)]}
+    return {"id": "mg%d" % i, "text": text, "doc": doc, "style": style, "fname": ".thailint.json" if style == "json" else ".thailint.yaml", "presets": [rng.choice(PRESETS + [None]), rng.choice(PRESETS + [None]), rng.choice(PRESETS)]}
 
 
 def flat(d, prefix=()):
@@ -273,7 +278,9 @@ def flat(d, prefix=()):
 def merge_history(case):
     d = runner.new_dir("m")
     os.makedirs(os.path.join(d, ".git"))
-    path = os.path.join(d, ".thailint.yaml")
+    fname = case.get("fname", ".thailint.yaml")
+    outopt = ["--output", fname] if fname != ".thailint.yaml" else []
+    path = os.path.join(d, fname)
     with open(path, "w", encoding="utf-8", newline="") as f:
         f.write(case["text"])
     steps = []
@@ -281,10 +288,10 @@ def merge_history(case):
         before = read(path)
         if (si + case.get("i", 0)) % 3 == 2:
             # the interactive form: the preset question is answered on stdin (Enter = the offered default, or the name typed in)
-            argv = ["init-config"] + (["--preset", p] if p else [])
+            argv = ["init-config"] + (["--preset", p] if p else []) + outopt
             r = runner.cli_real(argv, d, stdin_data=(b"\n" if si % 2 == 0 else ((p or "standard") + "\n").encode()))
         else:
-            argv = ["init-config", "--non-interactive"] + (["--preset", p] if p else [])
+            argv = ["init-config", "--non-interactive"] + (["--preset", p] if p else []) + outopt
             r = runner.cli(argv, d)
         after = read(path)
         try:
@@ -306,7 +313,7 @@ def merge_history(case):
     # reference: the user's own file alone
     d2 = runner.new_dir("m")
     os.makedirs(os.path.join(d2, ".git"))
-    with open(os.path.join(d2, ".thailint.yaml"), "w", encoding="utf-8", newline="") as f:
+    with open(os.path.join(d2, fname), "w", encoding="utf-8", newline="") as f:
         f.write(case["text"])
     runner.write_tree(d2, probe)
     ref = {}
@@ -317,12 +324,13 @@ def merge_history(case):
     return {"steps": steps, "decoded": decoded, "ref": ref}
 
 
-def preset_case(preset):
+def preset_case(item):
+    preset, fname = item
     d = runner.new_dir("p")
     files = dict(staircase.files(), **{k: v for k, v in triggers.files("p").items() if k != ".thailint.yaml"})
     runner.write_tree(d, files)
-    r = runner.cli(["init-config", "--non-interactive", "--force"] + (["--preset", preset] if preset else []), d)
-    text = read(os.path.join(d, ".thailint.yaml"))
+    r = runner.cli(["init-config", "--non-interactive", "--force"] + (["--preset", preset] if preset else []) + (["--output", fname] if fname != ".thailint.yaml" else []), d)
+    text = read(os.path.join(d, fname))
     out = {"exit": r.exit, "exists": text is not None, "err": r.err[-200:]}
     try:
         doc = yaml.safe_load(text.decode("utf-8")) if text is not None else None
@@ -402,20 +410,23 @@ def run(ctx):
                     case["id"], sec, None if a["v"] is None else len(a["v"]), None if b["v"] is None else len(b["v"]), sec),
                     {"history": case["id"], "argv": [sec, "--format", "json", "st"]}, dict(files, **{".thailint.yaml.after": v["steps"][-1]["after_text"] or ""}))
     # ---- (b)
-    for preset, o in zip(PRESETS + [None], runner.pmap(preset_case, PRESETS + [None], timeout=600)):
+    # (the generated file under its default name, and under the other auto-discovered name given with --output)
+    pitems = [(p, f) for f in (".thailint.yaml", ".thailint.json") for p in PRESETS + [None]]
+    for (preset, fname), o in zip(pitems, runner.pmap(preset_case, pitems, timeout=600)):
         ctx.evaluations += 1
         if not o.get("ok"):
             ctx.inconclusive_if(True, "preset case failed in harness: %s" % str(o)[:300])
             continue
         v = o["value"]
-        ctx.nontrivial(["preset", preset])
-        rep = {"argv": ["init-config", "--non-interactive", "--force"] + (["--preset", preset] if preset else [])}
+        ctx.nontrivial(["preset", preset, fname])
+        tag = "" if fname == ".thailint.yaml" else ":" + fname
+        rep = {"argv": ["init-config", "--non-interactive", "--force"] + (["--preset", preset] if preset else []) + (["--output", fname] if tag else [])}
         if v["exit"] != 0 or not v["exists"] or not v["parses"]:
-            ctx.discrepancy("preset-file-invalid:%s" % preset, "preset %s: exit %s exists=%s parses=%s %s" % (preset, v["exit"], v["exists"], v["parses"], v.get("parse_err", v["err"])), rep, {})
+            ctx.discrepancy("preset-file-invalid:%s%s" % (preset, tag), "preset %s: exit %s exists=%s parses=%s %s" % (preset, v["exit"], v["exists"], v["parses"], v.get("parse_err", v["err"])), rep, {})
             continue
         for c, r in v["cmds"].items():
             ctx.count("preset_command_runs")
             if r["exit"] not in (0, 1):
-                ctx.discrepancy("preset-rejected-by:%s" % c, "preset %s: `%s` exits %s with the generated file: %s" % (preset, c, r["exit"], r["err"]), rep, {})
+                ctx.discrepancy("preset-rejected-by:%s%s" % (c, tag), "preset %s: `%s` exits %s with the generated file %s: %s" % (preset, c, r["exit"], fname, r["err"]), rep, {})
     ctx.sample({"setget_history": sg[0]["ops"][:8], "config_file": sg[0]["cfgname"], "merge_example": {"style": mg[0]["style"], "existing": mg[0]["text"][:300], "presets": mg[0]["presets"]}})
     ctx.inconclusive_if(ctx.counters["merge_runs"] < 30 or ctx.counters["get_ops"] < 30, "too few merge runs / get operations")
